@@ -1364,9 +1364,22 @@ theorem nested_var {P : Parse} {σ : Supplied} {vars : Vars} {T : Ty} {item : Bo
   cases T <;> simpa [Nested] using h
 
 theorem inline_not_unset (σ : Supplied) (l : Lit) : isUnsetVar [] (inline σ l) = false := by
-  cases l <;> simp [inline, isUnsetVar]
-  rename_i n
-  cases σ.lookup n <;> simp [isUnsetVar, toLit_not_var]
+  cases l with
+  | var n =>
+    simp only [inline]
+    cases σ.lookup n with
+    | none => rfl
+    | some v => exact toLit_not_var v []
+  | null => rfl
+  | int z => rfl
+  | float z => rfl
+  | str z => rfl
+  | bool z => rfl
+  | enum z => rfl
+  | list z => rfl
+  | obj z => rfl
+
+theorem isUnsetVar_var (vars : Vars) (n : String) : isUnsetVar vars (.var n) = (vars.lookup n).isNone := rfl
 
 /-- The entries a literal writes for one declared field, with variables and with the values the
     variables stand for written in place, coerce alike. -/
@@ -1420,13 +1433,19 @@ theorem nested_field_entries (P : Parse) (σ : Supplied) (vars : Vars) (name : S
         cases hs : σ.lookup n with
         | none =>
           simp only [hs] at hv
-          simp [inlineF, hs, List.filter_cons, hk, isUnsetVar, hv, hrest]
+          have hu : isUnsetVar vars (.var n) = true := by rw [isUnsetVar_var, hv]; rfl
+          have hi : inlineF σ ((k, .var n) :: ps) = inlineF σ ps := by simp only [inlineF, hs]
+          rw [hi]
+          simp only [List.filter_cons, hk, hu, Bool.not_true, Bool.and_false, Bool.false_eq_true, if_false]
+          exact hrest
         | some v =>
           simp only [hs] at hv
           obtain ⟨_, _, ⟨x, hx, _⟩, _⟩ := hv
           simp only [inline, hs] at hvs
-          simp only [inlineF, hs, List.filter_cons, hk, isUnsetVar, hx, toLit_not_var, Option.isNone_some,
-            Bool.not_false, Bool.and_self, if_true, mapAll]
+          have hu : isUnsetVar vars (.var n) = false := by rw [isUnsetVar_var, hx]; rfl
+          have hi : inlineF σ ((k, .var n) :: ps) = (k, v.toLit) :: inlineF σ ps := by simp only [inlineF, hs]
+          rw [hi]
+          simp only [List.filter_cons, hk, hu, toLit_not_var, Bool.not_false, Bool.and_self, if_true, mapAll]
           rw [hvs, hrest]
       | null => exact plain _ rfl rfl rfl
       | int z => exact plain _ rfl rfl rfl
@@ -1457,5 +1476,99 @@ theorem all_hasName_inlineF (σ : Supplied) (fs : Fields) : ∀ (lfs : List (Str
     | enum z => simp [inlineF, hrest]
     | list z => simp [inlineF, hrest]
     | obj z => simp [inlineF, hrest]
+
+
+mutual
+theorem nested_lit (P : Parse) (σ : Supplied) (vars : Vars) :
+    ∀ (T : Ty) (l : Lit) (item : Bool), Nested P σ vars T item l →
+      coerceLit P vars T l (!item) = coerceLit P [] T (inline σ l) (!item)
+  | .scalar k, l, item, h => by
+    cases l with
+    | var n => exact var_stands P σ vars _ item n (nested_var h)
+    | null => exact closed_case P σ vars _ _ _ rfl
+    | int z => exact closed_case P σ vars _ _ _ rfl
+    | float z => exact closed_case P σ vars _ _ _ rfl
+    | str z => exact closed_case P σ vars _ _ _ rfl
+    | bool z => exact closed_case P σ vars _ _ _ rfl
+    | enum z => exact closed_case P σ vars _ _ _ rfl
+    | list z => exact closed_case P σ vars _ _ _ (by simpa [Nested] using h)
+    | obj z => exact closed_case P σ vars _ _ _ (by simpa [Nested] using h)
+  | .enum n vs, l, item, h => by
+    cases l with
+    | var n => exact var_stands P σ vars _ item n (nested_var h)
+    | null => exact closed_case P σ vars _ _ _ rfl
+    | int z => exact closed_case P σ vars _ _ _ rfl
+    | float z => exact closed_case P σ vars _ _ _ rfl
+    | str z => exact closed_case P σ vars _ _ _ rfl
+    | bool z => exact closed_case P σ vars _ _ _ rfl
+    | enum z => exact closed_case P σ vars _ _ _ rfl
+    | list z => exact closed_case P σ vars _ _ _ (by simpa [Nested] using h)
+    | obj z => exact closed_case P σ vars _ _ _ (by simpa [Nested] using h)
+  | .inputObj n fs, l, item, h => by
+    cases l with
+    | var n => exact var_stands P σ vars _ item n (nested_var h)
+    | obj lfs =>
+      simp only [Nested] at h
+      simp only [coerceLit, inline]
+      rw [all_hasName_inlineF σ fs lfs h.2, nested_fields P σ vars fs lfs h.1]
+    | null => exact closed_case P σ vars _ _ _ rfl
+    | int z => exact closed_case P σ vars _ _ _ rfl
+    | float z => exact closed_case P σ vars _ _ _ rfl
+    | str z => exact closed_case P σ vars _ _ _ rfl
+    | bool z => exact closed_case P σ vars _ _ _ rfl
+    | enum z => exact closed_case P σ vars _ _ _ rfl
+    | list z => exact closed_case P σ vars _ _ _ (by simpa [Nested] using h)
+  | .list t, l, item, h => by
+    cases l with
+    | var n => exact var_stands P σ vars _ item n (nested_var h)
+    | list xs =>
+      simp only [Nested] at h
+      simp only [coerceLit, inline]
+      rw [inlineL_eq_map, mapAll_map]
+      rw [mapAll_congr (fun x hx => by simpa using nested_lit P σ vars t x true (h x hx))]
+    | obj lfs =>
+      cases item with
+      | false =>
+        simp only [Nested] at h
+        have ih := nested_lit P σ vars t (.obj lfs) false h
+        simp only [Bool.not_false, inline] at ih ⊢
+        simp only [coerceLit, if_true, ih]
+      | true => exact closed_case P σ vars _ _ _ (by simpa [Nested] using h)
+    | null => exact closed_case P σ vars _ _ _ rfl
+    | int z => exact closed_case P σ vars _ _ _ rfl
+    | float z => exact closed_case P σ vars _ _ _ rfl
+    | str z => exact closed_case P σ vars _ _ _ rfl
+    | bool z => exact closed_case P σ vars _ _ _ rfl
+    | enum z => exact closed_case P σ vars _ _ _ rfl
+  | .nonNull t, l, item, h => by
+    cases l with
+    | var n => exact var_stands P σ vars _ item n (nested_var h)
+    | null => exact closed_case P σ vars _ _ _ rfl
+    | int z => exact closed_case P σ vars _ _ _ rfl
+    | float z => exact closed_case P σ vars _ _ _ rfl
+    | str z => exact closed_case P σ vars _ _ _ rfl
+    | bool z => exact closed_case P σ vars _ _ _ rfl
+    | enum z => exact closed_case P σ vars _ _ _ rfl
+    | list xs =>
+      simp only [Nested] at h
+      have ih := nested_lit P σ vars t (.list xs) item h
+      simp only [inline] at ih ⊢
+      simpa only [coerceLit] using ih
+    | obj lfs =>
+      simp only [Nested] at h
+      have ih := nested_lit P σ vars t (.obj lfs) item h
+      simp only [inline] at ih ⊢
+      simpa only [coerceLit] using ih
+theorem nested_fields (P : Parse) (σ : Supplied) (vars : Vars) :
+    ∀ (fs : Fields) (lfs : List (String × Lit)), NestedFields P σ vars fs lfs →
+      coerceLitFields P vars fs lfs = coerceLitFields P [] fs (inlineF σ lfs)
+  | .nil, _, _ => by simp [coerceLitFields]
+  | .cons name ty d rest, lfs, h => by
+    simp only [NestedFields] at h
+    simp only [coerceLitFields]
+    rw [nested_fields P σ vars rest lfs h.2,
+      nested_field_entries P σ vars name ty
+        (fun l hl => by simpa using nested_lit P σ vars ty l false hl) lfs h.1]
+end
 
 end ApiFu.C05
